@@ -35,6 +35,9 @@ os.environ.setdefault("OMP_NUM_THREADS", "1")
 os.environ.setdefault("OPENBLAS_NUM_THREADS", "1")
 
 
+_WARN_SET = False
+
+
 def use_repo():
     """import the implementation from /repo's current working tree (never a stale copy)"""
     src = str(SRC)
@@ -42,7 +45,11 @@ def use_repo():
         sys.path.insert(0, src)
     import warnings
 
-    warnings.filterwarnings("ignore")
+    global _WARN_SET
+    if not _WARN_SET:
+        # appended (lowest priority): the implementation's own filters (e.g. cvxpy UserWarning -> error) must stay in front
+        warnings.filterwarnings("ignore", append=True)
+        _WARN_SET = True
     import elexmodel  # noqa
 
     assert str(Path(elexmodel.__file__).resolve()).startswith(str(SRC.resolve())), elexmodel.__file__
